@@ -360,16 +360,16 @@ class Port(Base):
         if operator == "eq":
             return ports
         if operator == "range":
-            return [ports[0], ports[-1]]
+            return [min(ports), max(ports)]
         if operator == "neq":
             items: LInt = list(range(1, 65535 + 1))
             for port in ports:
                 items.remove(port)
             return items
         if operator == "gt":
-            return [ports[0] - 1]
+            return [min(ports) - 1] if ports else [65535]
         if operator == "lt":
-            return [ports[1] + 1]
+            return [max(ports) + 1] if ports else [1]
         raise ValueError(f"invalid port {operator=}")
 
 
